@@ -1,4 +1,5 @@
 import RedoModel.Core.Main
+import RedoModel.Core.History
 import RedoModel.Lemmas.Deps
 /-!
 # C01 — No stale target after a successful redo-ifchange
@@ -7,9 +8,11 @@ Property theorems only.
 Two models are involved.  `RedoModel/Deps.lean` is the full executable model of the serial engine
 (dynamic .do selection, checksums, always, ifcreate, overrides, out-of-band rebuilds); it is the one
 the correspondence check runs against the real binaries on every history.  `RedoModel/Core/*` is its
-plain-target core (static ranked graph, failures, removals), for which the soundness invariant is
-proven completely.  The full statement over the full model is kept visible as `no_stale_full`
-(a proposition, not yet a theorem); `no_stale_plain_partial` is the proven stage.
+plain-target core (static ranked graph, failures, removals), for which C01 is proven completely and
+over all histories (`no_stale_plain_history`); the core is itself run against the real binaries
+and against the full model on plain histories by the same check (tools/core_check.py, verb
+`core-run`).  The full statement over the full model is kept visible as `no_stale_full`
+(a proposition, not yet a theorem).
 -/
 namespace C01
 open RedoModel.Deps
@@ -33,6 +36,26 @@ def no_stale_full : Prop :=
     let w := (ops.foldl (fun w op => (applyOp {} n op w).2) (initWorld rules))
     let r := runCmd {} n (.ifchange ts kg) w
     r.1.status = 0 → ∀ t ∈ ts, UpToDate r.2 t
+
+/-- **C01 for the plain-target core, over all histories.**  Start from an empty project; let the
+user create/edit sources and remove any file (source or target) between commands, and let any
+number of `redo-ifchange` commands run, failing or not.  Whenever a `redo-ifchange ts` then exits 0,
+every target named is up to date: recursively, it and everything it depends on holds exactly what
+its script produces from up-to-date inputs.  No bound on the graph, the history or the depth;
+hypotheses: one strict rank on files (`Ordered`, i.e. no cycles — C12's subject), the user edits
+sources only (hand edits of targets are C11's), ids below the fuel bound `k`. -/
+theorem no_stale_plain_history {g : P.Graph} (hg : P.Ordered g) (k n : Nat) (ops : List P.Op)
+    (hwf : ∀ op ∈ ops, op.WF g k) (ts : List Nat) (hts : ∀ t ∈ ts, t < k) :
+    let s := P.run g k n P.init ops
+    (P.step g k n s (.build ts)).2 = some true →
+      ∀ t ∈ ts, P.UpToDate g (P.step g k n s (.build ts)).1.w.fs t :=
+  P.no_stale_history hg k n ops hwf ts hts
+
+/-- The soundness invariant holds (for the coming run) in every reachable state of every history. -/
+theorem invariant_reachable {g : P.Graph} (hg : P.Ordered g) (k n : Nat) (ops : List P.Op)
+    (hwf : ∀ op ∈ ops, op.WF g k) :
+    P.Inv g ((P.run g k n P.init ops).R + 1) (P.run g k n P.init ops).w :=
+  P.inv_reachable_next hg k n ops hwf
 
 /-- Proven stage (plain targets over a static ranked graph, with failures, removals and forced
 rebuilds): a successful `redo-ifchange t` leaves `t` up to date — recursively, everything it
